@@ -106,6 +106,7 @@ type FV struct {
 	prop      string // property whose contract slice is being verified ("" = all clauses)
 	ghostLoops map[*GhostStmt]map[int]bool
 	loopNest  map[int][]int // loop ordinal → ordinals of the enclosing loops
+	traceTypes map[string]types.Type
 }
 
 // tagOK: a clause tagged with property ids belongs to the current verification only if it names the current
@@ -131,7 +132,7 @@ type loopCtx struct {
 func newFV(w *World, fi *FuncInfo) *FV {
 	fv := &FV{w: w, fi: fi, pkg: fi.Pkg.Types, info: fi.Pkg.TypesInfo, pc: fi.PC, fc: fi.Contract,
 		declared: map[string]bool{}, oblNames: map[string]int{}, written: map[string]bool{}, compSort: map[string]string{}, compKind: map[string]string{},
-		loopNest: map[int][]int{}, bagSorts: map[string]bool{}, localRoles: map[types.Object]string{}, closures: map[types.Object]*closure{}, closureIsOrd: map[string]bool{},
+		loopNest: map[int][]int{}, traceTypes: map[string]types.Type{}, bagSorts: map[string]bool{}, localRoles: map[types.Object]string{}, closures: map[types.Object]*closure{}, closureIsOrd: map[string]bool{},
 		loopOrd: map[ast.Stmt]int{}, tparams: map[string]bool{}, assumptions: map[string]bool{}, callOrd: map[string]int{}}
 	fv.decls = append(fv.decls,
 		"(declare-datatypes ((Slice 0)) (((mk-slice (sbase Int) (soff Int) (slen Int) (scap Int)))))",
